@@ -17,6 +17,8 @@ SEMANTIC = [
     ('assertion failed', 'assert'),
     ('invariant not satisfied at end of loop body', 'inv-end'),
     ('invariant not satisfied before loop', 'inv-entry'),
+    ('loop invariant not satisfied', 'inv-break'),
+    ('precondition not met', 'pre'),
     ('possible arithmetic underflow/overflow', 'arith'),
     ('possible division by zero', 'div0'),
     ('decreases not satisfied', 'term'),
@@ -36,9 +38,9 @@ def classify(msg):
     return None
 
 
-def run_verus(path, rlimit, multiple_errors=8, timeout=900):
+def run_verus(path, rlimit, multiple_errors=8, timeout=900, extra=()):
     cmd = ['verus', path, '--output-json', '--time-expanded', '--error-format=json',
-           '--multiple-errors', str(multiple_errors), '--rlimit', str(rlimit), '--no-report-long-running']
+           '--multiple-errors', str(multiple_errors), '--rlimit', str(rlimit), '--no-report-long-running'] + list(extra)
     t0 = time.time()
     try:
         p = subprocess.run(cmd, stdout=subprocess.PIPE, stderr=subprocess.PIPE, timeout=timeout, text=True,
@@ -92,11 +94,11 @@ def _nearest_template_item(lines, ln):
     return '?'
 
 
-def describe(diag, lines, origin):
+def describe(diag, lines, origin, fname=None):
     """turn a verus error diagnostic into a named obligation"""
     msg = diag['message']
     kind = classify(msg)
-    spans = diag.get('spans', [])
+    spans = [s for s in diag.get('spans', []) if fname is None or os.path.basename(s.get('file_name', '')) == fname]
     prim = [s for s in spans if s.get('is_primary')] or spans
     where = []
     fn = None
@@ -158,7 +160,8 @@ def verify_unit(unit_path, repo, tier='quick', twin=True):
     rlimit = meta['rlimit'] or 30
     if tier == 'thorough':
         rlimit *= 4
-    r = run_verus(path, rlimit)
+    extra = ['--no-lifetime'] if meta.get('nolifetime') else []
+    r = run_verus(path, rlimit, extra=extra)
     res['cmd'] = r['cmd']
     res['verus_wall_s'] = r['wall_s']
     lines = text.split('\n')
@@ -197,7 +200,7 @@ def verify_unit(unit_path, repo, tier='quick', twin=True):
                 else:
                     und.append('unclassified: ' + d['message'][:200])
                 continue
-            fails.append(describe(d, lines, origin))
+            fails.append(describe(d, lines, origin, os.path.basename(path)))
         res['failures'] = fails
         if fails:
             res['status'] = 'failed'
@@ -212,14 +215,15 @@ def verify_unit(unit_path, repo, tier='quick', twin=True):
             ttext, torigin, tmeta = assemble(unit_path, repo, twin=True)
             tpath = path.replace('.rs', '_twin.rs')
             open(tpath, 'w').write(ttext)
-            tr = run_verus(tpath, rlimit, multiple_errors=64)
+            tr = run_verus(tpath, rlimit, multiple_errors=64, extra=extra)
             tlines = ttext.split('\n')
             probe_lines = [k + 1 for k, l in enumerate(tlines) if 'VACUITY-PROBE' in l]
             failed_lines = set()
             for d in tr['diags']:
                 if d['level'] == 'error' and 'assertion failed' in d['message']:
                     for s in d['spans']:
-                        failed_lines.add(s['line_start'])
+                        if os.path.basename(s.get('file_name', '')) == os.path.basename(tpath):
+                            failed_lines.add(s['line_start'])
             vac = [tlines[k - 1].strip() + ' @%d' % k for k in probe_lines if k not in failed_lines]
             res['twin'] = {'probes': len(probe_lines), 'refuted': len(probe_lines) - len(vac), 'vacuous': vac,
                            'wall_s': tr['wall_s']}
@@ -234,4 +238,4 @@ def verify_unit(unit_path, repo, tier='quick', twin=True):
 if __name__ == '__main__':
     import sys
     r = verify_unit(sys.argv[1], sys.argv[2] if len(sys.argv) > 2 else '/repo', twin='--no-twin' not in sys.argv)
-    print(json.dumps({k: v for k, v in r.items() if k not in ('meta',)}, indent=1)[:6000])
+    print(json.dumps({k: v for k, v in r.items() if k not in ('meta', 'function_breakdown')}, indent=1))
